@@ -228,7 +228,8 @@ def recipe_functions(ctx):
                 # the function does not accept a weights-only dimension at all (it raises for every request): out of scope
                 ctx.count("weights_only_dim_unsupported:" + rc.name)
                 continue
-            ok, why = scorelib.same_result(call(None, None), call("all", None))
+            call_first = call(None, None)
+            ok, why = scorelib.same_result(call_first, call("all", None))
             ctx.case((rc.name, "none=all", desc))
             if not ok:
                 ctx.violation(f"{rc.name}: omitting both options differs from reduce_dims='all': {why}", desc, "equal", why)
@@ -268,6 +269,27 @@ def recipe_functions(ctx):
             for bad in (call(["zz"], None), call(None, ["zz"])):
                 if bad != ("err", "err:ValueError"):
                     ctx.violation(f"{rc.name}: naming a dimension that is not in the data does not raise ValueError", desc, "err:ValueError", str(bad[1])[:100])
+            # history independence: the rule is a function of the names it is given. After the public function has been
+            # exercised on these inputs, gather_dimensions asked directly about the same dimension tuples must still
+            # give the plain answers (a cache shared with a caller that edits the returned set in place would not)
+            U = utils()
+            fd, od = tuple(xs[0].dims), tuple(xs[1].dims) if len(xs) > 1 and hasattr(xs[1], "dims") else ()
+            union = set(fd) | set(od)
+            probes = [({}, union), ({"reduce_dims": "all"}, union), ({"preserve_dims": "all"}, set())]
+            for d in list(union)[:2]:
+                probes += [({"preserve_dims": [d]}, union - {d}), ({"reduce_dims": [d]}, {d}), ({"preserve_dims": d}, union - {d})]
+            for kwg, want in probes:
+                for rep in (tuple, list):
+                    got = core.call_impl(U.gather_dimensions, rep(fd), rep(od), **kwg)
+                    ctx.case((rc.name, "gather-after", fd, od, repr(kwg), rep.__name__))
+                    if got[0] != "ok" or set(got[1]) != want:
+                        ctx.violation(f"gather_dimensions({list(fd)}, {list(od)}, {kwg}) asked after {rc.name} ran on arrays with these dimensions "
+                                      f"returns {sorted(got[1]) if got[0] == 'ok' else got[1]}, not {sorted(want)}",
+                                      dict(desc, after="the calls of this function listed in the other predicates", gather_kwargs=kwg), sorted(want), str(got[1]))
+            again = call(None, None)
+            ok, why = scorelib.same_result(call_first, again)
+            if not ok:
+                ctx.violation(f"{rc.name}: the same call gives a different result when repeated after other requests: {why}", desc, "identical", why)
 
 
 def manager_multistep(ctx):
